@@ -30,5 +30,7 @@ def run(check):
     check.run_rule('C16.R1', r1)
     check.run_rule('C16.R2', lambda c: rule_results_not_shared(c, 'C16.R2', holder.get('al')))
     check.run_rule('C16.R3', lambda c: rule_cm_window(c, {'restore': 'C16.R3', 'typestate': 'C16.R3', 'usage': 'C16.R3', 'confined': None}))
+    from ..rules_windows import rule_cm_saves_raw_entry
+    check.run_rule('C16.R3r', lambda c: rule_cm_saves_raw_entry(c, 'C16.R3'))
     check.run_rule('C16.R3i', lambda c: rule_foreign_write_inventory(c, 'C16.R3'))
     check.run_rule('C16.R4', lambda c: rule_recursion_guard_emptied(c, 'C16.R4'))
